@@ -9,7 +9,7 @@ CHECKS = {
          "as C01 for the directed class"),
  "C03": ("seeded simulation of SimplicialComplex's own mutators (five bulk formats, max_order, IDs, aliases) with stream faults; downward closure, duplicate-freeness, non-emptiness, has_simplex and refinement of the removal/max_order clauses after every step",
          "history-based; closure clauses are suspended for an actor after a call that raised half-way (DESIGN C03) and resume after close()/clear()"),
- "C04": ("seeded simulation over all three classes and provenances; every add-type step is judged: existing (id -> members, attrs) unchanged, new automatic IDs fresh, refused explicit IDs warn and change nothing",
+ "C04": ("seeded simulation over all three classes and every provenance as an operation of the world (empty, copy / pickle / constructor twins, every converter round trip and class-to-class construction, file round trips through the simulated store, relabelled / cleaned-up / largest-component derivations, seeded generators) followed by mixed explicit and automatic additions; every add-type step is judged: existing (id -> members, attrs) unchanged, new automatic IDs fresh, refused explicit IDs warn and change nothing",
          "provenance x history property; automatic IDs are adopted from the SUT, only freshness is demanded"),
  "C06": ("views and statistics recomputed through the public API after every step of a seeded edit history and compared with values derived from the reference model (degree/size with all arguments, directed variants, attrs, output formats and multi-stats, filterby in all modes, filterby_attr, neighbors, lookup, isolates, singletons, empty, maximal, duplicates); view and stat objects captured by hold steps are re-evaluated after every later mutation",
          "which of several equal-member edges duplicates() spares is not pinned (docstring and code disagree); DiHypergraph is left out of neighbors/lookup/duplicates/maximal, which the directed views do not implement"),
